@@ -37,3 +37,29 @@ REL_TYPE_OF_ELEMENT = {
     "oleObject": "oleObject",  # plus image for the preview
     "comments": "comments",
 }
+
+
+# Simple types of ECMA-376 Part 1 (sml.xsd), keyed by the crate's enum that carries them. Source: the standard's schema,
+# section 18.18 (SpreadsheetML simple types).
+SIMPLE_TYPES = {
+    "PaneValues": ("ST_Pane", ["bottomRight", "topRight", "bottomLeft", "topLeft"]),
+    "PaneStateValues": ("ST_PaneState", ["split", "frozen", "frozenSplit"]),
+    "DataValidationValues": ("ST_DataValidationType", ["none", "whole", "decimal", "list", "date", "time", "textLength", "custom"]),
+    "DataValidationOperatorValues": ("ST_DataValidationOperator", ["between", "notBetween", "equal", "notEqual", "lessThan", "lessThanOrEqual", "greaterThan", "greaterThanOrEqual"]),
+    "HorizontalAlignmentValues": ("ST_HorizontalAlignment", ["general", "left", "center", "right", "fill", "justify", "centerContinuous", "distributed"]),
+    "VerticalAlignmentValues": ("ST_VerticalAlignment", ["top", "center", "bottom", "justify", "distributed"]),
+    "BorderStyleValues": ("ST_BorderStyle", ["none", "thin", "medium", "dashed", "dotted", "thick", "double", "hair", "mediumDashed", "dashDot", "mediumDashDot", "dashDotDot", "mediumDashDotDot", "slantDashDot"]),
+    "PatternValues": ("ST_PatternType", ["none", "solid", "mediumGray", "darkGray", "lightGray", "darkHorizontal", "darkVertical", "darkDown", "darkUp", "darkGrid", "darkTrellis", "lightHorizontal", "lightVertical", "lightDown", "lightUp", "lightGrid", "lightTrellis", "gray125", "gray0625"]),
+    "UnderlineValues": ("ST_UnderlineValues", ["single", "double", "singleAccounting", "doubleAccounting", "none"]),
+    "VerticalAlignmentRunValues": ("ST_VerticalAlignRun", ["baseline", "superscript", "subscript"]),
+    "SheetStateValues": ("ST_SheetState", ["visible", "hidden", "veryHidden"]),
+    "ConditionalFormatValues": ("ST_CfType", ["expression", "cellIs", "colorScale", "dataBar", "iconSet", "top10", "uniqueValues", "duplicateValues", "containsText", "notContainsText", "beginsWith", "endsWith", "containsBlanks", "notContainsBlanks", "containsErrors", "notContainsErrors", "timePeriod", "aboveAverage"]),
+    "ConditionalFormattingOperatorValues": ("ST_ConditionalFormattingOperator", ["lessThan", "lessThanOrEqual", "equal", "notEqual", "greaterThanOrEqual", "greaterThan", "between", "notBetween", "containsText", "notContains", "beginsWith", "endsWith"]),
+    "TimePeriodValues": ("ST_TimePeriod", ["today", "yesterday", "tomorrow", "last7Days", "thisMonth", "lastMonth", "nextMonth", "thisWeek", "lastWeek", "nextWeek"]),
+    "OrientationValues": ("ST_Orientation", ["default", "portrait", "landscape"]),
+    "CellFormulaValues": ("ST_CellFormulaType", ["normal", "array", "dataTable", "shared"]),
+    "FontSchemeValues": ("ST_FontScheme", ["none", "major", "minor"]),
+    "ConditionalFormatValueObjectValues": ("ST_CfvoType", ["num", "percent", "max", "min", "formula", "percentile"]),
+    "SheetViewValues": ("ST_SheetViewType", ["normal", "pageBreakPreview", "pageLayout"]),
+    "TotalsRowFunctionValues": ("ST_TotalsRowFunction", ["none", "sum", "min", "max", "average", "count", "countNums", "stdDev", "var", "custom"]),
+}
